@@ -84,6 +84,14 @@ class C06(Prop):
                 acts += ['countByValue']
             return {'parts': parts, 'ops': ops, 'action': rng.choice(acts)}
         act = rng.choice(LAZY)
+        if rng.random() < .12:
+            # elements that are None (and falsy ones): an emptiness / first-element test must not mistake them for "nothing here"
+            vals = [None, None, 0, '', False, 1]
+            parts = [[rng.choice(vals) for _ in range(rng.choice([0, 1, 1, 2]))] for _ in range(rng.randint(2, 4))]
+            ops = [{'op': 'map', 'f': rng.choice(['id', 'wrap', 'toList', 'pairSelf'])} for _ in range(rng.randint(1, 2))]
+            if ops[-1]['f'] != 'id' or rng.random() < .7:
+                ops = [{'op': 'map', 'f': 'id'}]
+            return {'parts': parts, 'ops': ops, 'action': act, 'n': rng.randint(0, 3) if act == 'take' else 1}
         if rng.random() < .35:
             # a persisted step in the lineage: a touched partition is materialised as a whole, untouched ones not at all
             for _ in range(rng.choice([1, 1, 2])):
@@ -110,6 +118,9 @@ class C06(Prop):
             out.append({'parts': parts, 'ops': ops, 'action': a, 'n': 1})
         out.append({'parts': [[1, 3], [5]], 'ops': ops, 'action': 'isEmpty', 'n': 1})
         out.append({'parts': [[], []], 'ops': ops, 'action': 'take', 'n': 2})
+        for head in (None, 0, '', False):
+            for a in ('isEmpty', 'first', 'take'):
+                out.append({'parts': [[], [head], [1], [2]], 'ops': [{'op': 'map', 'f': 'id'}], 'action': a, 'n': 1})
         return out
 
     def nontrivial(self, case):
